@@ -55,11 +55,48 @@ structure Node where
   sCleanup : List Act := []
   deriving Repr, Inhabited
 
-abbrev Store := Nat → Node
+/-- all modules by identity (association list: latest binding first; absent = dead default) -/
+structure Store where
+  l : List (Nat × Node) := []
 
-def Store.set (σ : Store) (n : Nat) (v : Node) : Store := fun m => if m = n then v else σ m
-def Store.setSt (σ : Store) (n : Nat) (s : St) : Store := σ.set n { σ n with st := s }
-def Store.setBusy (σ : Store) (n : Nat) (b : Bool) : Store := σ.set n { σ n with busy := b }
+def Store.get (σ : Store) (n : Nat) : Node :=
+  match σ.l.find? (fun p => p.1 == n) with
+  | some p => p.2
+  | none => {}
+
+instance : CoeFun Store (fun _ => Nat → Node) := ⟨Store.get⟩
+
+def Store.set (σ : Store) (n : Nat) (v : Node) : Store := ⟨(n, v) :: σ.l.filter (fun p => p.1 != n)⟩
+
+theorem find_filter_ne (n m : Nat) (h : m ≠ n) : ∀ l : List (Nat × Node),
+    (l.filter (fun p => p.1 != n)).find? (fun p => p.1 == m) = l.find? (fun p => p.1 == m)
+  | [] => rfl
+  | a :: l => by
+    have ih := find_filter_ne n m h l
+    by_cases ha : a.1 = n
+    · have hm : ¬ a.1 = m := fun e => h (e.symm.trans ha)
+      have h1 : (a.1 != n) = false := by simp [ha]
+      have h2 : (a.1 == m) = false := by simp [hm]
+      rw [List.filter_cons, h1, List.find?_cons, h2]
+      simpa using ih
+    · have h1 : (a.1 != n) = true := by simp [ha]
+      rw [List.filter_cons, h1]
+      simp only [if_true, List.find?_cons]
+      cases a.1 == m
+      · simpa using ih
+      · rfl
+
+theorem Store.get_set (σ : Store) (n m : Nat) (v : Node) :
+    (σ.set n v).get m = if m = n then v else σ.get m := by
+  unfold Store.get Store.set
+  by_cases h : m = n
+  · subst h; simp
+  · have h' : (n == m) = false := by simpa using fun e => h e.symm
+    simp only [List.find?_cons, h', h, if_false]
+    rw [find_filter_ne n m h]
+
+def Store.setSt (σ : Store) (n : Nat) (s : St) : Store := let x := σ.get n; σ.set n { x with st := s }
+def Store.setBusy (σ : Store) (n : Nat) (b : Bool) : Store := let x := σ.get n; σ.set n { x with busy := b }
 
 def Node.slot (x : Node) : Hook → List Act
   | .onInit => x.sInit | .onStart => x.sStart | .onStop => x.sStop | .onCleanup => x.sCleanup
@@ -102,8 +139,10 @@ def addOp (σ : Store) (p c : Nat) (req : Bool) : Option (Store × Bool) :=
   else if (σ c).hasParent then some (σ, false)
   else if !(σ c).named && hasUnnamedKid σ (σ p).kids then some (σ, false)
   else
-    let σ1 := σ.set p { σ p with kids := (σ p).kids ++ [(c, req)] }
-    some (σ1.set c { σ1 c with hasParent := true, parent := p }, true)
+    let x := σ.get p
+    let σ1 := σ.set p { x with kids := x.kids ++ [(c, req)] }
+    let y := σ1.get c
+    some (σ1.set c { y with hasParent := true, parent := p }, true)
 
 def undo : Api → Api
   | .init => .cleanup | .start => .stop | a => a
@@ -250,7 +289,8 @@ children in registration order -/
 def aDestroy (g : Bool) : Nat → Store → Nat → Res
   | 0, σ, _ => Res.outOfFuel σ
   | f + 1, σ, n =>
-    let σ0 := σ.set n { σ n with dying := true }
+    let x := σ.get n
+    let σ0 := σ.set n { x with dying := true }
     let c := aCall g f σ0 n .cleanup false
     if c.thrown then c
     else
